@@ -22,6 +22,7 @@ RotOrders == {<<"a", "b", "c", "n">>, <<"n", "a", "b", "c">>, <<"c", "n", "a", "
 TwoOrders == {<<"a", "b", "c", "n">>, <<"n", "c", "b", "a">>}
 FewMaps == {M(1, 0, 0, 0), M(1, 2, 0, 0), M(1, 0, 0, 1), M(2, 9, 1, 0), M(0, 2, 1, 1)}
 OneVal == {2}
+TinyMaps == {M(1, 0, 0, 0), M(1, 2, 0, 1)}
 AllKinds == {"future", "boundfn", "pmap", "raw"}
 TwoKinds == {"future", "raw"}
 ========================================================================================
